@@ -490,6 +490,20 @@ def cl_scalar_copy(kind, args, a, op='all'):
             scale_a = sum(np.abs(ab) for _, _, ab in parts[1:]) + 1e-300
             if np.any(np.abs(sf - parts[0][1]) > 1e-13 * scale_f) or np.any(np.abs(sa - parts[0][2]) > 1e-13 * scale_a):
                 return False, '%s: the pieces do not add up to the object' % o
+    # --- in-place operators on the object AS CONSTRUCTED (no copy in between): the object and its pieces share nothing
+    for o, k in (('imul', a), ('idiv', 1.0 / a)):
+        if op not in ('all', o):
+            continue
+        F = _make_obj(kind, args)
+        if o == 'imul':
+            F *= a
+        else:
+            F /= a
+        if len(_parts(F)) != len(ref):
+            return False, '%s on the object as constructed: number of pieces' % o
+        for (lab, f, ab), (_, f0, a0) in zip(_parts(F), ref):
+            if not (close(f, k * f0) and close(ab, k * a0)):
+                return False, '%s on the object as constructed: %s is not scaled by %r' % (o, lab, k)
     return True, ''
 
 
